@@ -1,5 +1,5 @@
 """What each check claims (feeds MANIFEST.json)."""
-NOTE = "Trusted base: CPython's ast parser, networkx, and this repository-specific analyser; unresolved constructs are read in the benign direction (may miss, never invents). The behavioural remainder of the property is not decided."
+NOTE = "Trusted base: CPython's ast parser, networkx, and this repository-specific analyser; unresolved constructs are read in the benign direction (may miss, never invents). The behavioural remainder of the property is not decided. Besides the clauses named here, exact bug-class detectors (one-shot iterator reuse, leftover loop variable, non-ground state lookup, swapped arguments, memo-key adequacy, …) run as rules <ID>.G on the functions that implement the property (props/generic.py); the analysis is modulo local names, annotations, no-op statements and logic shape (DESIGN.md section 10, Neutrality)."
 
 CLAIMS = {
     "C01": {
